@@ -61,6 +61,9 @@ var (
 	// map: the order in which their intents are flushed is random per deployment)
 	qnViews = []appdef.QName{appdef.NewQName("test", "Proj0"), appdef.NewQName("test", "Proj1"), appdef.NewQName("test", "Proj2")}
 	qnProjs = []appdef.QName{appdef.NewQName("test", "Projector0"), appdef.NewQName("test", "Projector1"), appdef.NewQName("test", "Projector2")}
+	// the other application variant: ONE sync projector, subscribed AFTER DEACTIVATE test.Doc only
+	qnViewD = appdef.NewQName("test", "ProjD")
+	qnProjD = appdef.NewQName("test", "ProjectorD")
 	qnCUD    = istructs.QNameCommandCUD
 	qnWS     = appdef.NewQName(appdef.SysPackage, "TestWS")
 	qnWSKind = appdef.NewQName(appdef.SysPackage, "TestWSKind")
@@ -140,6 +143,7 @@ func (p *fixedProvider) AppStorage(appdef.AppQName) (istorage.IAppStorage, error
 
 type rig struct {
 	tl      int
+	deact   bool // application variant with the single AFTER DEACTIVATE projector
 	inner   istorage.IAppStorage
 	wrap    *kit.Wrap
 	clock   *kit.Clock
@@ -169,13 +173,21 @@ type life struct {
 	crashed   chan string // receives the panic text when the processor goroutine dies
 }
 
-func newRig(tl int) (*rig, error) {
+// views the sync projectors of the rig's application variant write, by projector number
+func (r *rig) views() []appdef.QName {
+	if r.deact {
+		return []appdef.QName{qnViewD}
+	}
+	return qnViews
+}
+
+func newRig(tl int, deact bool) (*rig, error) {
 	logger.SetLogLevel(logger.LogLevelNone)
 	st, cleanup, err := kit.NewBackend("mem", timeu.NewITime())
 	if err != nil {
 		return nil, err
 	}
-	r := &rig{tl: tl, inner: st, cleanup: cleanup, clock: kit.NewClock()}
+	r := &rig{tl: tl, deact: deact, inner: st, cleanup: cleanup, clock: kit.NewClock()}
 	r.wrap = &kit.Wrap{Inner: st, Before: r.before}
 	if err := r.boot(); err != nil {
 		cleanup()
@@ -275,7 +287,7 @@ func (r *rig) boot() error {
 	wsdescutil.AddWorkspaceDescriptorStubDef(wsb)
 	wsb.AddObject(istructs.QNameRaw).AddField(processors.Field_RawObject_Body, appdef.DataKind_string, true, constraints.MaxLen(appdef.MaxFieldLength))
 	wsb.AddCDoc(qnDoc).AddField(fldV, appdef.DataKind_int64, false)
-	for _, qn := range qnViews {
+	for _, qn := range append(append([]appdef.QName{}, qnViews...), qnViewD) {
 		view := wsb.AddView(qn)
 		view.Key().PartKey().AddField(viewP, appdef.DataKind_int64)
 		view.Key().ClustCols().AddField(viewOff, appdef.DataKind_int64)
@@ -285,20 +297,28 @@ func (r *rig) boot() error {
 	wsb.AddRole(iauthnz.QNameRoleAuthenticatedUser)
 	wsb.AddRole(iauthnz.QNameRoleEveryone)
 	wsb.AddRole(iauthnz.QNameRoleSystem)
-	for j := range qnProjs {
-		prj := wsb.AddProjector(qnProjs[j])
-		prj.SetSync(true).Events().Add([]appdef.OperationKind{appdef.OperationKind_Execute}, filter.QNames(qnCUD))
-		prj.Intents().Add(sys.Storage_View, qnViews[j])
+	names, targets := qnProjs, qnViews
+	if r.deact {
+		names, targets = []appdef.QName{qnProjD}, []appdef.QName{qnViewD}
+		prj := wsb.AddProjector(qnProjD)
+		prj.SetSync(true).Events().Add([]appdef.OperationKind{appdef.OperationKind_Deactivate}, filter.QNames(qnDoc))
+		prj.Intents().Add(sys.Storage_View, qnViewD)
+	} else {
+		for j := range qnProjs {
+			prj := wsb.AddProjector(qnProjs[j])
+			prj.SetSync(true).Events().Add([]appdef.OperationKind{appdef.OperationKind_Execute}, filter.QNames(qnCUD))
+			prj.Intents().Add(sys.Storage_View, qnViews[j])
+		}
 	}
 
 	cfgs := istructsmem.AppConfigsType{}
 	cfg := cfgs.AddBuiltInAppConfig(testApp, adb)
 	cfg.SetNumAppWorkspaces(istructs.DefaultNumAppWorkspaces)
 	cfg.Resources.Add(istructsmem.NewCommandFunction(qnCUD, istructsmem.NullCommandExec))
-	for j := range qnProjs {
-		qnView := qnViews[j]
+	for j := range names {
+		qnView := targets[j]
 		cfg.AddSyncProjectors(istructs.Projector{
-			Name: qnProjs[j],
+			Name: names[j],
 			// idempotent: the row depends on the event only
 			Func: func(event istructs.IPLogEvent, s istructs.IState, intents istructs.IIntents) error {
 				kb, err := s.KeyBuilder(sys.Storage_View, qnView)
